@@ -92,7 +92,7 @@ static void explore(Result& R) {
     // pairs and triples: type combinations x a few meshes (node offsets of the second/third cell matter)
     for (int t1 = 0; t1 < 5; t1++) for (int t2 = 0; t2 < 5; t2++) for (int h1 : {0, 2}) for (int h2 : {0, 3}) for (int x : {0, 2, 5}) for (int w = 0; w < 2; w++) all.push_back({{{1, t1, h1}, {2, t2, h2}}, x, w});
     for (int m1 = 0; m1 < nm; m1++) for (int m2 = 0; m2 < nm; m2++) for (int m3 : {0, 3, 5}) for (int h : {0, 2}) { if (!th && (m1 + m2) % 2) continue; all.push_back({{{m1, 0, h}, {m2, 1, 0}, {m3, 3, h}}, 4, 0}); all.push_back({{{m1, 2, 0}, {m2, 4, h}, {m3, 0, 3}}, 0, 1}); }
-    for (const Case& c : all) { if (R.out_of_time(0.9)) { R.cap("deadline"); break; } cases++;
+    long unit = 0; for (const Case& c : all) { if (!R.args.mine(unit++)) continue; if (R.out_of_time(0.9)) { R.cap("deadline"); break; } cases++;
         std::string dg; g_digest = &dg; std::string e = run_case(c, &with_free); g_digest = nullptr; R.mix(dg + e);
         if (!e.empty()) R.violation(clause_of(e) + "|" + (c.writer ? "write_cell_data_file" : "mesh_writer::write") + "|cells=" + std::to_string(c.cells.size()), e + " [" + case_json(c) + "]", "case=" + case_text(c) + "\n");
         if (cases % 400 == 1) R.sample(case_json(c)); }
